@@ -35,7 +35,7 @@ var All = []string{
 	"create-eligible", "create-once", "dup-resolution", "ineligible-cleanup", "unknown-untouched",
 	"budget", "canary-confinement", "canary-list-growth", "canary-label", "promotion-rule",
 	"paused-frozen", "rate", "ownership", "rs-identity", "rs-gc", "status-function", "rs-status-order",
-	"canary-nodes-valid", "no-panic", "canary-verdict", "condition-clock",
+	"canary-nodes-valid", "no-panic", "canary-verdict", "condition-clock", "canary-latch",
 }
 
 // Of builds a Set.
@@ -273,6 +273,9 @@ func Check(r *sim.Record, on Set, h *History) []V {
 		}
 		if on["condition-clock"] {
 			add(conditionClock(r, v)...)
+		}
+		if on["canary-latch"] {
+			add(canaryLatch(r, v)...)
 		}
 	}
 	if r.Actor == sim.ActorEDS {
@@ -684,6 +687,28 @@ func conditionClock(r *sim.Record, v *ersView) []V {
 				prop = "C06"
 			}
 			out = append(out, V{prop, "condition-clock", prop + "/condition-clock/" + string(t) + "-transition-time-not-refreshed", fmt.Sprintf("the sync of %s at %s changed condition %s to %s but its lastTransitionTime is %s", v.rs.Name, r.Pre.Now.Format("15:04:05"), t, qc.Status, qc.LastTransitionTime.Format("15:04:05"))})
+		}
+	}
+	return out
+}
+
+// canaryLatch: Canary-Failed and Canary-Paused are the only record of a failure / a pause of that replica set. A sync
+// in which the replica set is neither active nor canary (it is waiting: rolled back, superseded, retained after a
+// failure) must leave them as they are - the rollback (C07) and "a canary resumes on unpause or explicit
+// validation" (C08) depend on it.
+func canaryLatch(r *sim.Record, v *ersView) []V {
+	post := r.Post.RSByKey(v.rs.Namespace, v.rs.Name)
+	if post == nil || v.role != oracle.RoleUnknown || !v.statusOK || r.Panic != nil {
+		return nil
+	}
+	var out []V
+	for _, t := range []edsv1.ExtendedDaemonSetReplicaSetConditionType{edsv1.ConditionTypeCanaryFailed, edsv1.ConditionTypeCanaryPaused} {
+		if oracle.RSCondTrue(&v.rs.Status, t) && !oracle.RSCondTrue(&post.Status, t) {
+			prop := "C07"
+			if t == edsv1.ConditionTypeCanaryPaused {
+				prop = "C08"
+			}
+			out = append(out, V{prop, "canary-latch", prop + "/canary-latch/" + string(t) + "-reset-while-neither-active-nor-canary", fmt.Sprintf("the sync of %s (neither active nor canary) reset its %s condition from True", v.rs.Name, t)})
 		}
 	}
 	return out
